@@ -14,6 +14,9 @@ from pyvc.world import World
 from .spec import check_outcome
 
 PROPERTY = 'C09'
+LEVEL = 'other'
+EXPLANATION = ('scanners: deductive obligations (pyvc, z3 strings) for all strings and positions; grammar: data obligations evaluated exhaustively on the '
+               'real grammar objects; combinators and tree readers: bounded stand-in only (listed under bounded, not counted in obligations)')
 PARSER = 'pgradd/RINGParser/Parser.py'
 AllDec = z3.Function('AllDecimal', z3.StringSort(), z3.BoolSort())
 TRUSTED = ['str: isdigit/isdecimal/isalpha/isspace on one character are uninterpreted predicates constrained by CPython facts '
